@@ -272,13 +272,25 @@ func checkC11(c *Ctx) {
 	if !c.Require(fn != nil && n2p != nil && n2o != nil, "R11.0", "anchor:config.StringToNote", "StringToNote/NoteToPitch/NoteToOctave not found") {
 		return
 	}
+	// the conversion may have moved into a package of its own, with the old names kept as one-line forwards
+	fn, n2p, n2o = followForward(c.P, fn), followForward(c.P, n2p), followForward(c.P, n2o)
 	c.Fn(shortFn(fn))
 	c.Fn(shortFn(n2p))
 	c.Fn(shortFn(n2o))
 	pos := c.P.Pos(fn.Pos())
 
 	// R11.3 pattern
-	pat, rpos, ok := c.P.globalRegexPattern(pkgConfig, "stringToNoteRegex")
+	rePkg, reName := pkgConfig, "stringToNoteRegex"
+	for _, b := range fn.Blocks { // the pattern the conversion matches with: the package-level regexp it loads
+		for _, in := range b.Instrs {
+			if u, isU := in.(*ssa.UnOp); isU && u.Op == token.MUL {
+				if g, isG := u.X.(*ssa.Global); isG && g.Pkg != nil && strings.HasSuffix(g.Type().String(), "regexp.Regexp") {
+					rePkg, reName = g.Pkg.Pkg.Path(), g.Name()
+				}
+			}
+		}
+	}
+	pat, rpos, ok := c.P.globalRegexPattern(rePkg, reName)
 	if !c.Require(ok, "R11.3", "anchor:config.stringToNoteRegex", "stringToNoteRegex is not compiled from a constant pattern") {
 		return
 	}
@@ -784,4 +796,42 @@ func backwardPitchTable(c *Ctx, n2p *ssa.Function) (map[int64]string, string, bo
 		return out, g.Name(), true
 	}
 	return nil, g.Name() + " is not a constant map or list literal", false
+}
+
+// followForward: fn only hands its arguments to another function of the repository and returns what that returns
+// (`func StringToNote(s string) (byte, error) { return notename.Parse(s) }`): that function.
+func followForward(p *Program, fn *ssa.Function) *ssa.Function {
+	for hop := 0; hop < 3; hop++ {
+		if fn == nil || len(fn.Blocks) != 1 {
+			return fn
+		}
+		var call *ssa.Call
+		okShape := true
+		for _, in := range fn.Blocks[0].Instrs {
+			switch x := in.(type) {
+			case *ssa.Call:
+				if call != nil {
+					okShape = false
+				}
+				call = x
+			case *ssa.Extract, *ssa.Return, *ssa.DebugRef:
+			default:
+				okShape = false
+			}
+		}
+		if !okShape || call == nil {
+			return fn
+		}
+		callee := call.Call.StaticCallee()
+		if callee == nil || len(callee.Blocks) == 0 || !p.OwnedFunc(callee) || len(call.Call.Args) != len(fn.Params) {
+			return fn
+		}
+		for i, a := range call.Call.Args {
+			if a != ssa.Value(fn.Params[i]) {
+				return fn
+			}
+		}
+		fn = callee
+	}
+	return fn
 }
